@@ -126,7 +126,19 @@ fn check_tape(tape: &[u8], gates: &Gates, stats: &mut Stats, counting: bool) -> 
     let mut choice = Tape::new(&derived);
     let kinds: Vec<FaultKind> = ALL_FAULTS.iter().copied().filter(|k| unit.sites[k.index()] > 0).collect();
     let faulty = !kinds.is_empty() && choice.flag();
-    let base = if faulty {
+    let uniform = if faulty && choice.flag() {
+        // a fault kind chosen uniformly over all rules (see gen_valid::unit_with_fault_of)
+        let kd = ALL_FAULTS[choice.below(ALL_FAULTS.len())];
+        let mut big = Profile::default();
+        big.max_progs = 1;
+        big.sfc = false;
+        unit_with_fault_of(kd, tape, gates, &big).map(|fu| spell_unit(&fu, gates))
+    } else {
+        None
+    };
+    let base = if let Some(u) = uniform {
+        u
+    } else if faulty {
         let kd = kinds[choice.below(kinds.len())];
         let s = choice.below(unit.sites[kd.index()]);
         let mut t2 = Tape::new(tape);
